@@ -1,4 +1,4 @@
-import JunoModel.C15.ProofsProps
+import JunoModel.C15.ProofsBuf
 /-!
 C15 — property theorems (statements only; helper lemmas are in `Proofs*.lean`).
 Every theorem in this module is an obligation listed in evidence/C15.json with its axioms.
@@ -112,6 +112,104 @@ theorem f5_boundary_not_coarse :
     inContract ⟨false⟩ World.init
       [.put [3] [3], .newBatch true, .bdelRange 0 [2] [4], .put [7] [9], .del [3], .get (.batch 0) [7] false,
        .bwrite 0, .scan .db [] false] = true := by decide
+
+/-! ## db/memory with finding F5 repaired (`mem2Impl`, ModelRange.lean)
+
+`batch.DeleteRange` records the range itself (proposed-fixes/C15-memory-batch-deleterange-recorded-as-range.diff).
+The harness probes which variant the code is; for this one the F5 exclusion is gone. -/
+
+/-- The repaired db/memory refines the contract on EVERY op sequence inside the documented contract
+(plus, only while `Get` still calls back under the store lock, no re-entrant callback): no `f5Free`. -/
+theorem repaired_memory_refines_contract (c : MemCfg) (ops : List Op)
+    (h : inDocumentedRE c World.init ops = true) :
+    run (mem2Impl c) World.init ops = run specImpl World.init ops :=
+  (run_sim (mem2Sim c) ops _ _ (R_init (mem2Sim c)) (by rw [inBoundary_mem2]; exact h)).1
+
+/-- THE PROPERTY at full strength, for db/memory with both repairs (callback outside the lock, range
+recorded as a range): it answers every op of every sequence inside the documented contract exactly as
+the Pebble wrappers do. No defect exclusion is left. -/
+theorem repaired_memory_equals_pebble (ops : List Op) (h : inDocumented World.init ops = true) :
+    run (mem2Impl ⟨true⟩) World.init ops = run pebImpl World.init ops := by
+  rw [repaired_memory_refines_contract ⟨true⟩ ops (by rw [inDocumentedRE_unlocked]; exact h),
+    pebble_wrapper_refines_contract ops h]
+
+/-- Repaired batch, reads and `Write`, on EVERY store — also one that changed after the calls were
+made (the point where the materialising variant fails, cf. `batch_flush_equals_log_fixed_store`): a
+batch built by any list of `Put`/`Delete`/`DeleteRange` reads as the store with the log applied, and
+`Write` applies the log in order. -/
+theorem repaired_batch_equals_log_any_store (c : MemCfg) (log : List LogOp) (d : KV) (k : Key) :
+    (mem2Build log ((mem2Impl c).bempty true)).get d k = (applyLog d log).get k ∧
+    (mem2Build log ((mem2Impl c).bempty true)).flush d = applyLog d log := by
+  obtain ⟨h1, h2⟩ := mem2Build_ok log _ m2OK_empty
+  have hw : (mem2Build log ((mem2Impl c).bempty true)).writes = log := by
+    rw [show (mem2Impl c).bempty true = (⟨[], [], [], 0⟩ : M2Batch) from rfl, h2]; rfl
+  exact ⟨by rw [show (mem2Impl c).bempty true = (⟨[], [], [], 0⟩ : M2Batch) from rfl, h1 d k, h2]; rfl,
+    by rw [m2_flush_eq, hw]⟩
+
+/-- the replay of finding F5 and the `Size()`-after-`DeleteRange` difference: the repaired variant
+answers as the wrappers do -/
+theorem repaired_resolves_f5_witness :
+    run (mem2Impl ⟨true⟩) World.init
+      [.newBatch false, .bdelRange 0 [] [255], .put [1] [9], .bsize 0, .bwrite 0, .scan .db [] false] =
+    run pebImpl World.init
+      [.newBatch false, .bdelRange 0 [] [255], .put [1] [9], .bsize 0, .bwrite 0, .scan .db [] false] := by decide
+
+/-! ## db.BufferBatch (db/bufferbatch.go) and CalculatePrefixSize (db/pebble*/db.go) -/
+
+/-- `BufferBatch.Get` reads the buffer's own writes over the wrapped indexed batch: after any list
+`log` of `Put`/`Delete` calls on the buffer, the lookup (`updates` map first — a nil entry is a deletion —
+then the wrapped batch, whose log is `txn`) is the lookup in the store with `txn` and then `log`
+applied in order (later calls win). -/
+theorem buffer_reads_own_writes (d : KV) (txn log : List LogOp) (hp : pointLog log) (k : Key) :
+    bufLookup (bufBuild log) (fun k => (applyLog d txn).get k) k = (applyLog d (txn ++ log)).get k := by
+  rw [bufLookup_eq, applyLog_append_list]
+  exact bufBuild_rel (applyLog d txn) log [] (applyLog d txn) hp (fun _ => rfl) k
+
+/-- `BufferBatch.Flush` + `Write` = the log: the `Put`/`Delete` calls `Flush` issues on the wrapped
+batch (one per entry of `updates`) have, after the wrapped batch's earlier log `txn` and on every store,
+exactly the effect of the buffer's own calls applied in order. -/
+theorem buffer_flush_equals_log (d : KV) (hd : Sorted d) (txn log : List LogOp) (hp : pointLog log) :
+    applyLog d (txn ++ overlayOps (bufBuild log)) = applyLog d (txn ++ log) := by
+  rw [applyLog_append_list, applyLog_append_list]
+  have hs := sorted_applyLog hd txn
+  apply Sorted.ext (sorted_applyLog hs _) (sorted_applyLog hs _)
+  intro k
+  have hsb : Sorted (bufBuild log) := sorted_bufBuild log [] Sorted.nil
+  rw [applyLog_overlayOps (bufBuild log) hsb]
+  exact bufBuild_rel (applyLog d txn) log [] (applyLog d txn) hp (fun _ => rfl) k
+
+/-- Go iterates `updates` in an unspecified order; the model's `Flush` takes key order. It does not
+matter: issuing the entries of the map in ANY order (any permutation `l` of the map) leaves, on every
+store, the same content as the model's order. -/
+theorem buffer_flush_order_irrelevant (d : KV) (hd : Sorted d) (u : Updates) (hu : Sorted u)
+    (l : List (Key × Option Val)) (hp : l.Perm u) :
+    applyLog d (l.map entryOp) = applyLog d (overlayOps u) := by
+  have hdu := sorted_distinct hu
+  have hdl : distinctKeys l := (hp.pairwise_iff (fun h => fun e => h e.symm)).mpr hdu
+  apply Sorted.ext (sorted_applyLog hd _) (sorted_applyLog hd _)
+  intro k
+  rw [applyLog_entries l hdl, show overlayOps u = u.map entryOp from rfl, applyLog_entries u hdu,
+    perm_get_eq hp hdu]
+
+/-- `BufferBatch.Write` as a step of the layered model on the contract: with the wrapped batch live
+(log `sb.log`), the store open (`d`) and `updates = u`, it succeeds, leaves the store at
+`sb.log ++ overlayOps u` applied to `d`, drops the map (`updates = nil`) and closes the wrapped batch. -/
+theorem buffer_write_step (bw : BWorld SBatch SIter) (b : Nat) (u : Updates) (sb : SBatch) (idx : Bool) (d : KV)
+    (hu : bw.bufs b = some (some u)) (hb : bw.w.batches b = some (sb, idx)) (hd : bw.w.db = some d) :
+    (xstep specImpl bw (.bufWrite b)).2 = .r .ok ∧
+    (xstep specImpl bw (.bufWrite b)).1.w.db = some (applyLog d (sb.log ++ overlayOps u)) ∧
+    (xstep specImpl bw (.bufWrite b)).1.bufs b = some none ∧
+    (xstep specImpl bw (.bufWrite b)).1.w.batches b = none :=
+  spec_bufWrite bw b u sb idx d hu hb hd
+
+/-- `CalculatePrefixSize(prefix, withUpperBound)`: the count is the number of entries of the store in
+`[prefix, UpperBound(prefix))` and the size the sum of their key and value lengths — on the wrappers'
+iterator, on db/memory's and on the contract's. -/
+theorem prefix_size_exact (c : MemCfg) (content : KV) (p : Key) (u : Bool) :
+    let out := content.filter (fun x => specBound p u x.1)
+    prefixSize pebImpl content p u = (out.length, sumSizes out) ∧
+    prefixSize (memImpl c) content p u = (out.length, sumSizes out) := by
+  exact ⟨prefixSize_eq pebSim content p u, prefixSize_eq (memSim c) content p u⟩
 
 /-! ## Batches -/
 
@@ -236,6 +334,63 @@ theorem next_invalid_stays_invalid (mi : MIter) (pi : PIter) (si si' : SIter) (h
     have := snext_after_stays si' (by simpa using h)
     simp [this]
 
+/-- … lifted to every reachable state: after ANY op sequence inside the boundary, every live iterator
+of db/memory (either batch variant) and of the Pebble wrappers has the property — `Next` returned false
+once, it returns false again (and the iterator shows no entry). -/
+theorem next_invalid_stays_invalid_reachable (c : MemCfg) (ops : List Op) (i : Nat)
+    (h : inContract c World.init ops = true) :
+    (∀ mi, (exec (memImpl c) World.init ops).iters i = some (some mi) →
+      mi.next.2 = false → mi.next.1.next.2 = false ∧ mi.next.1.next.1.kv = none) ∧
+    (∀ mi, (exec (mem2Impl c) World.init ops).iters i = some (some mi) →
+      mi.next.2 = false → mi.next.1.next.2 = false ∧ mi.next.1.next.1.kv = none) ∧
+    (∀ pi, (exec pebImpl World.init ops).iters i = some (some pi) →
+      pi.next.2 = false → pi.next.1.next.2 = false ∧ pi.next.1.next.1.iter.kv = none) := by
+  have hdoc := inDocumented_of_inContract c ops _ h
+  have hre : inDocumentedRE c World.init ops = true := inDocumentedRE_of_inContract c ops _ h
+  have r1 := (run_sim (memSim c) ops _ _ (R_init (memSim c)) (by rw [inBoundary_mem]; exact h)).2.iters i
+  have r2 := (run_sim (mem2Sim c) ops _ _ (R_init (mem2Sim c)) (by rw [inBoundary_mem2]; exact hre)).2.iters i
+  have r3 := (run_sim pebSim ops _ _ (R_init pebSim) (by rw [inBoundary_peb]; exact hdoc)).2.iters i
+  have key : ∀ (mi : MIter) (si : SIter), RI mi si → mi.next.2 = false →
+      mi.next.1.next.2 = false ∧ mi.next.1.next.1.kv = none := by
+    intro mi si hm hf
+    have h1 := next_sim hm
+    have h2 := next_sim h1.1
+    rw [h1.2] at hf
+    have hs := snext_after_stays si (by simpa using hf)
+    exact ⟨by rw [h2.2]; simp [hs], by rw [RI_cur h2.1]; exact hs⟩
+  refine ⟨?_, ?_, ?_⟩
+  · intro mi hmi
+    rw [hmi] at r1
+    cases hs : (exec specImpl World.init ops).iters i with
+    | none => rw [hs] at r1; exact r1.elim
+    | some y =>
+      cases y with
+      | none => rw [hs] at r1; exact r1.elim
+      | some si => rw [hs] at r1; exact key mi si r1
+  · intro mi hmi
+    rw [hmi] at r2
+    cases hs : (exec specImpl World.init ops).iters i with
+    | none => rw [hs] at r2; exact r2.elim
+    | some y =>
+      cases y with
+      | none => rw [hs] at r2; exact r2.elim
+      | some si => rw [hs] at r2; exact key mi si r2
+  · intro pi hpi
+    rw [hpi] at r3
+    cases hs : (exec specImpl World.init ops).iters i with
+    | none => rw [hs] at r3; exact r3.elim
+    | some y =>
+      cases y with
+      | none => rw [hs] at r3; exact r3.elim
+      | some si =>
+        rw [hs] at r3
+        intro hf
+        have h1 := pnext_sim r3
+        have h2 := pnext_sim h1.1
+        rw [h1.2] at hf
+        have hs' := snext_after_stays si (by simpa using hf)
+        exact ⟨by rw [h2.2]; simp [hs'], by rw [RPI_cur h2.1]; exact hs'⟩
+
 /-- `Seek(t)` lands on the least key `>= t` of the iterator's range, or makes the iterator invalid
 when every key is `< t` (db/memory iterator). -/
 theorem seek_least (it : MIter) (hs : Sorted it.keys) (t : Key) :
@@ -298,6 +453,33 @@ example : run specImpl World.init sampleOps =
      .r (.list []),
      .upd [.ok, .val [5]] .errCb, .upd [.ok] .ok, .r .ok, .r .ok, .r .ok, .r .ok, .r .errClosed] := by decide
 example : run (memImpl ⟨false⟩) World.init sampleOps = run pebImpl World.init sampleOps := by decide
+example : run (mem2Impl ⟨false⟩) World.init sampleOps = run pebImpl World.init sampleOps := by decide
+/-- the F5 replay is inside the documented contract (what the repaired variant is proved on) and
+outside `inContract` (what the materialising variant is proved on) -/
+example : inDocumented World.init
+    [.newBatch false, .bdelRange 0 [] [255], .put [1] [9], .bwrite 0, .scan .db [] false] = true := by decide
+example : inDocumentedRE ⟨false⟩ World.init sampleOps = true := by decide
+example : (mem2Build [.put [1] [1], .put [3] [3], .delRange [1] [3], .put [2] [2]] ⟨[], [], [], 0⟩).get [([1, 5], [7])] [1, 5] = none ∧
+    (mem2Build [.put [1] [1], .put [3] [3], .delRange [1] [3], .put [2] [2]] ⟨[], [], [], 0⟩).flush [([1, 5], [7])] =
+      [([2], [2]), ([3], [3])] := by decide
+/-- BufferBatch: `Put 01; Delete 02; Put 02; Delete 01` over a wrapped batch that holds `Put 01` -/
+example : pointLog [.put [1] [7], .del [2], .put [2] [], .del [1]] := by
+  intro o ho; simp at ho; rcases ho with h | h | h | h <;> subst h <;> rfl
+example : overlayOps (bufBuild [.put [1] [7], .del [2], .put [2] [], .del [1]]) = [.del [1], .put [2] []] := by decide
+/-- a layered sequence: buffer over an indexed batch, read through, flush alone, write, use after write -/
+example : xrun specImpl BWorld.init
+    [.base (.put [1] [1]), .newBuf, .bufPut 0 [2] [2], .bufDel 0 [1], .bufGet 0 [1] false, .bufGet 0 [2] false,
+     .bufGet 0 [3] false, .base (.get (.batch 0) [2] false), .bufFlush 0, .base (.get (.batch 0) [2] false),
+     .bufOther 0, .bufWrite 0, .base (.scan .db [] false), .bufPut 0 [5] [5], .bufGet 0 [2] false, .bufWrite 0] =
+    [.r .ok, .handle 0, .r .ok, .r .ok, .r .notfound, .r (.val [2]), .r .notfound, .r .notfound, .r .ok,
+     .r (.val [2]), .r .panic, .r .ok, .r (.list [([2], [2])]), .r .panic, .r .errClosed, .r .errClosed] := by decide
+example : (match (exec (memImpl ⟨true⟩) World.init [.put [1] [1], .iter .db [] false, .first 0]).iters 0 with
+    | some (some mi) => !mi.next.2
+    | _ => false) = true := by decide
+example : inContract ⟨true⟩ World.init [.put [1] [1], .iter .db [] false, .first 0] = true := by decide
+example : [([2], some [2]), ([1], none)].Perm ([([1], none), ([2], some [2])] : List (Key × Option Val)) :=
+  List.Perm.swap _ _ _
+example : prefixSize pebImpl [([1], [1, 1]), ([1, 255], []), ([2], [9])] [1] true = (2, 5) := by decide
 example : Sorted ([([], [9]), ([1, 255], [7]), ([2], [8])] : KV) := by
   simp [Sorted, lexLt]
 example : RI (MIter.mk' [([1], [1])] [] false) (specImpl.imk [([1], [1])] [] false) ∧
